@@ -13,7 +13,7 @@ TRUSTED = ["the OS model of the live part: sched_setaffinity applies the mask it
            "set_mempolicy / get_mempolicy / mbind / migrate_pages / move_pages) is a differential-tested model without property "
            "theorems except C10_linux_setaffinity_mask; the P0 theorems are about bind.c over an arbitrary hook table",
            "tools/gen_bind.py (flag masks, policy list) and the symbol interposition in harness/h_bind.c"]
-ASSUMPTIONS = ["a single-threaded calling process, thread arguments equal to pthread_self(), page-aligned areas (Linux hook model only)",
+ASSUMPTIONS = ["a single-threaded calling process, thread arguments equal to pthread_self(), page-aligned areas (Linux hook model only); the load-restores-binding check alone runs with a second thread that holds a different binding while hwloc_topology_load() runs, and every getter receives a dirty (reused) output bitmap in 3 of 4 calls",
                "malloc / posix_memalign / mmap of a non-zero length succeed",
                "every stub hook that returns non-zero also sets errno (as real hooks do); the errno left by a succeeding hook is not tracked",
                "the live round trip is claimed for subsets of this sandbox's allowed CPUs on a machine whose complete cpuset equals its "
